@@ -6,6 +6,7 @@ import (
 	"fmt"
 	"os"
 	"runtime"
+	"runtime/debug"
 	"sort"
 	"testing"
 	"time"
@@ -113,7 +114,7 @@ func TestWorker(t *testing.T) {
 	out := &WorkerOut{Outcomes: map[string]int{}, Probes: map[string]int64{}, Faults: map[string]int64{}, KnownHits: map[string]int{}, KnownExample: map[string]string{}, OtherProps: map[string]int{}}
 	defer func() {
 		if r := recover(); r != nil {
-			out.HarnessError = fmt.Sprintf("%v", r)
+			out.HarnessError = fmt.Sprintf("%v\n%s", r, debug.Stack())
 		}
 		js, _ := json.Marshal(out)
 		os.WriteFile(job.Out, js, 0o644)
